@@ -14,6 +14,7 @@ import (
 	"fmt"
 	"hash"
 	"math/rand"
+	"sort"
 	"sync"
 	"sync/atomic"
 
@@ -45,6 +46,10 @@ type Config struct {
 	MaxEvents int   // watchdog on processed events
 	Seed      int64 // PRNG seed of the case
 	RootStart uint64
+	// ReorderCommittee: the committee is the same set of keys at every root height, but stakes move a little with the root
+	// height (power = 1000*Powers[i] + (i+rootHeight) mod n), so the stake-sorted ORDER of the validator set - and with it
+	// every signer bitmap - differs between root heights, as it does on a real root chain whenever stakes change
+	ReorderCommittee bool
 }
 
 type evKind int
@@ -145,6 +150,9 @@ type Sim struct {
 	PubKeys  [][]byte
 	Vals     *lib.ConsensusValidators
 	ValSet   lib.ValidatorSet
+	vsMu     sync.Mutex
+	vsCache  map[uint64]vsEntry
+	idPos    []int
 	Replicas []*Replica // nil entries for Byzantine indices
 	Now      int64
 	Rng      *rand.Rand
@@ -642,6 +650,62 @@ func (s *Sim) Honest() []int {
 		}
 	}
 	return out
+}
+
+// valsAt returns the committee in force at a root height and the position of every replica index in it.
+func (s *Sim) valsAt(root uint64) (lib.ValidatorSet, []int) {
+	if !s.Cfg.ReorderCommittee {
+		if s.idPos == nil {
+			for i := range s.Cfg.Powers {
+				s.idPos = append(s.idPos, i)
+			}
+		}
+		return s.ValSet, s.idPos
+	}
+	s.vsMu.Lock()
+	defer s.vsMu.Unlock()
+	if c, ok := s.vsCache[root]; ok {
+		return c.vs, c.pos
+	}
+	n := len(s.Cfg.Powers)
+	order := make([]int, n)
+	for i := range order {
+		order[i] = i
+	}
+	pw := func(i int) uint64 { return 1000*s.Cfg.Powers[i] + uint64((i+int(root%uint64(n)))%n) }
+	sort.SliceStable(order, func(a, b int) bool { return pw(order[a]) > pw(order[b]) })
+	vals := &lib.ConsensusValidators{}
+	pos := make([]int, n)
+	for p, i := range order {
+		pos[i] = p
+		vals.ValidatorSet = append(vals.ValidatorSet, &lib.ConsensusValidator{PublicKey: s.PubKeys[i], VotingPower: pw(i), NetAddress: fmt.Sprintf("v%d", i)})
+	}
+	vs, err := lib.NewValidatorSet(vals)
+	if err != nil {
+		panic(err)
+	}
+	if s.vsCache == nil {
+		s.vsCache = map[uint64]vsEntry{}
+	}
+	s.vsCache[root] = vsEntry{vs, pos}
+	return vs, pos
+}
+
+// ValSetAt is the committee in force at a root height.
+func (s *Sim) ValSetAt(root uint64) lib.ValidatorSet { vs, _ := s.valsAt(root); return vs }
+
+// PosAt is the position (bitmap index) of replica i in the committee of a root height.
+func (s *Sim) PosAt(i int, root uint64) int { _, pos := s.valsAt(root); return pos[i] }
+
+// PowerAt is the voting power of replica i in the committee of a root height.
+func (s *Sim) PowerAt(i int, root uint64) uint64 {
+	vs, pos := s.valsAt(root)
+	return vs.ValidatorSet.ValidatorSet[pos[i]].VotingPower
+}
+
+type vsEntry struct {
+	vs  lib.ValidatorSet
+	pos []int
 }
 
 // PowerOf sums the voting power of the given indices.
